@@ -45,11 +45,31 @@ FirstBad(ev) ==
       k  == CHOOSE k \in 1 .. Len(ev.res) : ~ResOK(ev.res[k], in, rs, rl)
   IN ev.res[k].impl \o "/" \o ev.res[k].shape \o " ref=" \o (IF rs.e = "" THEN "ok" ELSE rs.e) \o "," \o (IF rl.e = "" THEN "ok" ELSE rl.e)
 
+\* a session: one decoder / reader instance skips a sequence of values one after the other (state carried
+\* between calls: counters reset, buffers reused).  Expected extents come from iterating the reference.
+RECURSIVE Extents(_, _, _)
+Extents(in, i, ts) ==
+  IF ts = <<>> THEN <<>>
+  ELSE LET r == Skip(in, i, Head(ts), DefaultDepth, TRUE) IN
+       IF r.e # "" THEN <<-1>> ELSE <<r.n>> \o Extents(in, i + r.n, Tail(ts))
+SeqResOK(r, exp) ==
+  /\ ~r.panic
+  /\ Len(r.ns) = Len(exp)
+  /\ \A k \in 1 .. Len(exp) : r.oks[k] /\ r.ns[k] = exp[k] /\ r.rets[k]
+SeqOK(ev) ==
+  LET exp == Extents(MkIn(ev.in), 1, ev.ts) IN
+  (\A k \in 1 .. Len(exp) : exp[k] >= 0) => \A j \in 1 .. Len(ev.res) : SeqResOK(ev.res[j], exp)
+SeqBad(ev) ==
+  LET exp == Extents(MkIn(ev.in), 1, ev.ts)
+      j == CHOOSE j \in 1 .. Len(ev.res) : ~SeqResOK(ev.res[j], exp)
+  IN ev.res[j].impl \o "/" \o ev.res[j].shape \o " ref=session"
+
 TraceInit == l = 1
 TraceNext ==
   /\ l <= Len(Trace)
   /\ l' = l + 1
   /\ LET ev == Trace[l] IN
-     (ev.k = "skip" /\ ~EvOK(ev)) => ReportWhy("MISMATCH", l, FirstBad(ev))
+     /\ (ev.k = "skip" /\ ~EvOK(ev)) => ReportWhy("MISMATCH", l, FirstBad(ev))
+     /\ (ev.k = "skipseq" /\ ~SeqOK(ev)) => ReportWhy("MISMATCH", l, SeqBad(ev))
 TraceSpec == TraceInit /\ [][TraceNext]_l
 =============================================================================
